@@ -7,7 +7,7 @@ cd $W || exit 2
 git diff -- src > /tmp/seed-$id.cur.diff
 if ! diff -q <(grep -v '^index ' /tmp/seed-$id.cur.diff) <(grep -v '^index ' $O/patch.diff) >/dev/null; then echo "NOTE: worktree diff differs from patch.diff; re-applying"; git checkout -- src; git apply $O/patch.diff || exit 2; fi
 demo=${2:-seed_demo}
-echo "== suite with change"; CARGO_TARGET_DIR=$T cargo test --workspace --no-fail-fast --offline 2>&1 | grep -E "^test result|FAILED|failed" | grep -v "^test result: ok" | head; 
-CARGO_TARGET_DIR=$T cargo test --workspace --no-fail-fast --offline 2>&1 | grep -E "^test .* FAILED" | head
+echo "== suite with change"; CARGO_TARGET_DIR=$T timeout 1200 cargo test --workspace --no-fail-fast --offline 2>&1 | grep -E "^test result|FAILED|failed" | grep -v "^test result: ok" | head; 
+CARGO_TARGET_DIR=$T timeout 1200 cargo test --workspace --no-fail-fast --offline 2>&1 | grep -E "^test .* FAILED" | head
 echo "== demo with change (must FAIL)"; CARGO_TARGET_DIR=$T cargo test --offline --test $demo 2>&1 | grep -E "^test |test result" | head -12
 git stash -q -- src; echo "== demo without change (must PASS)"; CARGO_TARGET_DIR=$T cargo test --offline --test $demo 2>&1 | grep -E "^test |test result" | head -12; git stash pop -q
